@@ -897,7 +897,9 @@ def _bvp_case(m, mode, order, kind, coef_kind):
         bd0 = [(0, 0, 0.0), (1, 0, 0.5), (0, 1, 0.2)]
         consts = [0.2, 1.0, -0.3, lead]
     a0 = lambda x: consts[0] * (1.0 + 0.2 * np.cos(x))         # noqa: E731
-    if coef_kind == "numbers":
+    if coef_kind == "leading-only":                            # a_K y^(K) = f with a_K != 1: every lower coefficient vanishes identically
+        consts = [0.0] * order + [lead + 0.7]
+    if coef_kind in ("numbers", "leading-only"):
         coeffs = m.own(f"{tag}.coeffs-list", list(consts))
         coeffs_ref = list(consts)
     elif coef_kind == "array":
@@ -940,6 +942,10 @@ def _ivp_case(m, mode, order, kind, y0_kind):
     lead = 1.0 + float(g.uniform(0.0, 0.5))
     consts = [-1.0, 0.3, lead] if order == 2 else [0.2, 1.0, -0.3, lead]
     y00 = [0.3, -0.2, 0.1][:order]
+    leading_only = y0_kind == "leading-only"
+    if leading_only:
+        consts = [0.0] * order + [lead + 0.7]
+        y0_kind = "list"
     if y0_kind == "list":
         y0 = m.own(f"{tag}.y0-list", list(y00))
         span = m.own(f"{tag}.x_span-list", list(span0))
@@ -982,6 +988,9 @@ def _make_ode_scenario(mode):
         _ivp_case(m, mode, 2, "none", "list")
         _ivp_case(m, mode, 2, "identity", "array")
         _ivp_case(m, mode, 3, "becke", "list")
+        _bvp_case(m, mode, 2, "none", "leading-only")
+        _ivp_case(m, mode, 2, "none", "leading-only")
+        _ivp_case(m, mode, 3, "identity", "leading-only")
         if _big(m):
             _bvp_case(m, mode, 3, "none", "array")
             _bvp_case(m, mode, 3, "becke", "numbers")
